@@ -27,33 +27,33 @@ theorem slotAt_lt {s : Slots} {q : Nat} {op : Op} (h : slotAt s q = some op) : q
   · exact hq
   · rw [slotAt_eq_none_of_le (Nat.le_of_not_lt hq)] at h; cases h
 
-theorem occ_lt {s : Slots} {q : Nat} (h : occ s q = true) : q < s.length := by
-  unfold occ at h
+theorem occ_lt {s : Slots} {q : Nat} (h : occAt s q = true) : q < s.length := by
+  unfold occAt at h
   cases h2 : slotAt s q with
   | none => rw [h2] at h; cases h
   | some op => exact slotAt_lt h2
 
-theorem occ_iff {s : Slots} {q : Nat} : occ s q = true ↔ ∃ op, slotAt s q = some op := by
-  unfold occ; cases slotAt s q <;> simp
+theorem occ_iff {s : Slots} {q : Nat} : occAt s q = true ↔ ∃ op, slotAt s q = some op := by
+  unfold occAt; cases slotAt s q <;> simp
 
-theorem occ_of_slotAt {s : Slots} {q : Nat} {op : Op} (h : slotAt s q = some op) : occ s q = true := by
-  unfold occ; rw [h]; rfl
+theorem occ_of_slotAt {s : Slots} {q : Nat} {op : Op} (h : slotAt s q = some op) : occAt s q = true := by
+  unfold occAt; rw [h]; rfl
 
-theorem occ_false_of_slotAt {s : Slots} {q : Nat} (h : slotAt s q = none) : occ s q = false := by
-  unfold occ; rw [h]; rfl
+theorem occ_false_of_slotAt {s : Slots} {q : Nat} (h : slotAt s q = none) : occAt s q = false := by
+  unfold occAt; rw [h]; rfl
 
 theorem occ_set (s : Slots) (p : Nat) (x : Option Op) (hp : p < s.length) :
-    occ (s.set p x) = upd (occ s) p x.isSome := by
+    occAt (s.set p x) = upd (occAt s) p x.isSome := by
   funext q
-  unfold occ upd
+  unfold occAt upd
   rw [slotAt_set]
   by_cases h : q = p
   · subst h; simp [hp]
   · have : ¬ p = q := fun e => h e.symm
     simp [h, this]
 
-theorem occV_lt {s : Slots} {v q : Nat} (h : occV s v q = true) : q < s.length := by
-  unfold occV at h
+theorem occV_lt {s : Slots} {v q : Nat} (h : occVAt s v q = true) : q < s.length := by
+  unfold occVAt at h
   cases h2 : slotAt s q with
   | none => rw [h2] at h; cases h
   | some op => exact slotAt_lt h2
@@ -61,22 +61,22 @@ theorem occV_lt {s : Slots} {v q : Nat} (h : occV s v q = true) : q < s.length :
 theorem length_set_slots (s : Slots) (p : Nat) (x : Option Op) : (s.set p x).length = s.length :=
   List.length_set
 
-theorem occ_cons_succ (a : Option Op) (t : Slots) (p : Nat) : occ (a :: t) (p + 1) = occ t p := rfl
+theorem occ_cons_succ (a : Option Op) (t : Slots) (p : Nat) : occAt (a :: t) (p + 1) = occAt t p := rfl
 theorem slotAt_cons_succ (a : Option Op) (t : Slots) (p : Nat) : slotAt (a :: t) (p + 1) = slotAt t p := rfl
-theorem countOps_cons (a : Option Op) (t : Slots) : countOps (a :: t) = (if a.isSome then 1 else 0) + countOps t := by
+theorem countOps_cons_isSome (a : Option Op) (t : Slots) : countOps (a :: t) = (if a.isSome then 1 else 0) + countOps t := by
   simp only [countOps, List.filter_cons]; split <;> simp <;> omega
 theorem countOps_set (s : Slots) (p : Nat) (x : Option Op) (hp : p < s.length) :
-    countOps (s.set p x) + (if occ s p then 1 else 0) = countOps s + (if x.isSome then 1 else 0) := by
+    countOps (s.set p x) + (if occAt s p then 1 else 0) = countOps s + (if x.isSome then 1 else 0) := by
   induction s generalizing p with
   | nil => simp at hp
   | cons a t ih =>
     cases p with
     | zero =>
-      cases a <;> cases x <;> simp [countOps_cons, occ, slotAt] <;> omega
+      cases a <;> cases x <;> simp [countOps_cons_isSome, occAt, slotAt] <;> omega
     | succ p =>
       have hp' : p < t.length := by simpa using hp
       have := ih p hp'
-      rw [List.set_cons_succ, countOps_cons, countOps_cons, occ_cons_succ]
+      rw [List.set_cons_succ, countOps_cons_isSome, countOps_cons_isSome, occ_cons_succ]
       omega
 def bondIs (b : Nat) (o : Option Op) : Bool :=
   match o with
